@@ -284,13 +284,36 @@ def run_log(case):
             try:
                 cf.close_link()
                 s.sleep(3.0)
+                shift = 0
+                if case.get('renumber'):
+                    # the firmware was updated in between: the same variables, numbered differently
+                    shift = 1 + case['renumber'] % 2
+                    dev.log_toc[0:0] = [{'group': 'lg0', 'name': 'fresh%d' % k_, 'type': 1} for k_ in range(shift)]
+                    dev.log_crc = (dev.log_crc + 1) & 0xFFFFFFFF
+                    out.feat('table-renumbered-between-sessions')
                 if not cfharness.connect(env, cf, rec, wait_for='fully_connected', timeout=60.0):
                     out.fail('log:reconnect', 'events %r' % rec.names()[-6:])
                     return out
+                link2 = env.world.links[-1]
+                n_tx2 = len(link2.tx)
                 cf.log.add_config(lc)
                 again = [(v.name, v.fetch_as, v.stored_as, v.type) for v in lc.variables]
                 if again != first_vars:
                     out.fail('log:readd-changes-variables', '%s: %d variables before, %d after re-adding: %r' % (desc, len(first_vars), len(again), [a[0] for a in again]))
+                if accepted and not has_mem and lc.valid:
+                    lc.create()
+                    s.sleep(1.0)
+                    items = []
+                    for t, p, c, d, cl in link2.tx[n_tx2:]:
+                        if p == 5 and c == 1 and d[0] in (0, 1, 6, 7):
+                            body = d[2:]
+                            step_ = 3 if v2 else 2
+                            for k in range(len(body) // step_):
+                                items.append((body[k * step_], body[k * step_ + 1] | (body[k * step_ + 2] << 8) if v2 else body[k * step_ + 1]))
+                    byname = dict((e[0], e) for e in expected)
+                    want = [((byname[v.name][2] << 4) | byname[v.name][1], byname[v.name][3] + shift) for v in lc.variables if v.name in byname]
+                    if items != want:
+                        out.fail('log:create-items:second-session', '%s: table shifted by %d; device decoded %r, configuration is %r' % (desc, shift, items, want))
             except (KeyError, AttributeError) as e:
                 out.fail('log:readd-rejected', '%s: %r' % (desc, e))
             except (Deadlock, Horizon) as e:
@@ -477,7 +500,7 @@ def log_case(draw):
                      'extreme': draw(st.booleans()), 'gap': draw(st.sampled_from([0.2, 0.2, 0.0, 0.01]))})
     period = draw(_period) if shape != 'split' else draw(st.sampled_from([10, 100, 2540]))
     return {'version': draw(st.sampled_from([10, 10, 4, 3])), 'toc_types': toc_types, 'vars': vars_, 'period_ms': period, 'history': hist,
-            'ts0': draw(st.sampled_from([0, 1, 255, 256, 65535, 65536, 0xFFFFFE, 1000000])), 'readd': draw(st.sampled_from([False, False, True])),
+            'ts0': draw(st.sampled_from([0, 1, 255, 256, 65535, 65536, 0xFFFFFE, 1000000])), 'readd': draw(st.sampled_from([False, False, True])), 'renumber': draw(st.sampled_from([0, 0, 1, 2])),
             'schedule': draw(_sched), 'delays': draw(st.sampled_from([[], [0.0], [0.0], [0.0, 0.001], [0.002]]))}
 
 
